@@ -16,7 +16,8 @@
   `check : Prog → Tag` propagates the abstract values
       const z   – does not depend on the input (z = true: known to be zero)
       linC      – linear over the full scalar field K of the interpretation (ℂ for complex operators)
-      linR      – linear over the sub-field R only (ℝ: after `real`, `imag`, `conj`)
+      antiC     – conjugate-linear over K: additive and f (c•x) = conj c • f x  (after one `conj`)
+      linR      – linear over the sub-field R only (ℝ: after `real`, `imag`, or a mix of linC and antiC)
       bad       – anything else (affine, product of two input-dependent values, non-linear primitive, …)
   through the equation list.  `Scico/Proofs/Jaxpr.lean` proves the checker sound for every
   interpretation of the primitives that satisfies the per-class facts.
@@ -36,8 +37,11 @@ inductive PClass where
   | bilinear
   /-- two data operands (numerator, denominator): linear in the numerator for a fixed denominator -/
   | divLike
-  /-- one data operand, additive and homogeneous for real scalars only: real, imag, conj -/
+  /-- one data operand, additive and homogeneous for real scalars only: real, imag,
+      convert_element_type complex → real -/
   | realPart
+  /-- one data operand, additive and conjugate-homogeneous: conj -/
+  | conj
   /-- everything else: abs, max, min, sign, floor, exp, sqrt, integer_pow, comparisons, … -/
   | nonlin
 deriving DecidableEq, Repr, Inhabited
@@ -46,6 +50,7 @@ deriving DecidableEq, Repr, Inhabited
 inductive Tag where
   | const (isZero : Bool)
   | linC
+  | antiC
   | linR
   | bad
 deriving DecidableEq, Repr, Inhabited
@@ -80,16 +85,17 @@ def join : Tag → Tag → Tag
   | const false, _ => bad
   | _, const false => bad
   | linC, linC => linC
-  | linC, linR => linR
-  | linR, linC => linR
-  | linR, linR => linR
+  | antiC, antiC => antiC
+  | _, _ => linR
 
 /-- tag of a bilinear primitive applied to two values -/
 def bil : Tag → Tag → Tag
   | const a, const b => const (a || b)
   | const _, linC => linC
+  | const _, antiC => antiC
   | const _, linR => linR
   | linC, const _ => linC
+  | antiC, const _ => antiC
   | linR, const _ => linR
   | _, _ => bad
 
@@ -97,13 +103,23 @@ def bil : Tag → Tag → Tag
 def div : Tag → Tag → Tag
   | const a, const _ => const a
   | linC, const _ => linC
+  | antiC, const _ => antiC
   | linR, const _ => linR
   | _, _ => bad
 
-/-- tag of `real` / `imag` / `conj` applied to a value -/
+/-- tag of `real` / `imag` applied to a value -/
 def re : Tag → Tag
   | const a => const a
   | linC => linR
+  | antiC => linR
+  | linR => linR
+  | bad => bad
+
+/-- tag of `conj` applied to a value: conjugating twice restores complex linearity -/
+def cj : Tag → Tag
+  | const a => const a
+  | linC => antiC
+  | antiC => linC
   | linR => linR
   | bad => bad
 
@@ -126,6 +142,7 @@ def stepTag (tags : List Tag) (e : Eqn) : Tag :=
     | .bilinear, [ta, tb] => ta.bil tb
     | .divLike, [ta, tb] => ta.div tb
     | .realPart, [ta] => ta.re
+    | .conj, [ta] => ta.cj
     | .nonlin, ts => if ts.all Tag.isConst then .const false else .bad
     | _, _ => .bad
   else .bad
